@@ -155,13 +155,34 @@ def run_shard(args):
     return ok, lists, p.stdout[-2000:]
 
 
+_COV = None
+
+
+def _cov_start():
+    """Diagnostic only (bin/covmap): with VERIF_COVERAGE=<dir> every process that runs cases records which lines
+    of the implementation the correspondence inputs execute; never set by a registered check."""
+    global _COV
+    d = os.environ.get("VERIF_COVERAGE")
+    if d and (_COV is None or _COV[0] != os.getpid()):
+        import coverage
+        root = os.path.join(os.environ.get("VERIF_REPO", "/repo"), "signac")
+        c = coverage.Coverage(data_file=os.path.join(d, "cov"), data_suffix=True, branch=False,
+                              include=[os.path.join(root, "*")])
+        c.start()
+        _COV = (os.getpid(), c)
+
+
 def _run_case(args):
     modname, desc = args
     mod = importlib.import_module(modname)
+    _cov_start()
     try:
         return mod.run_case(desc)
     except Exception:
         return ("ERROR", desc, traceback.format_exc())
+    finally:
+        if _COV is not None and _COV[0] == os.getpid():
+            _COV[1].save()
 
 
 def run_cases(mod, descs):
@@ -456,7 +477,8 @@ def check(prop, mod, tier, seed, replay, scratch, t0, lines):
     }
     # evidence is only recorded for runs against /repo itself (mutation trials with VERIF_REPO write elsewhere)
     evdir = os.path.join(VERIF, "evidence")
-    if os.environ.get("VERIF_REPO") and os.path.realpath(os.environ["VERIF_REPO"]) != "/repo":
+    if (os.environ.get("VERIF_REPO") and os.path.realpath(os.environ["VERIF_REPO"]) != "/repo") \
+            or os.environ.get("VERIF_NO_EVIDENCE"):
         evdir = os.path.join(scratch, "evidence-not-recorded")
     os.makedirs(evdir, exist_ok=True)
     with open(os.path.join(evdir, f"{prop}.json"), "w") as fh:
